@@ -17,6 +17,13 @@ def add_to(run):
         run.functions["amaranth_soc." + fv.qualname] = f"proved ({fv.paths} paths, {len(fv.obs)} obligations)"
         run.require(f"{fv.qualname}::equal-iff-same-class-and-all-parameters-equal")
         obs += fv.obs
+    try:
+        for fv in c.verify_memory_map_setters():
+            run.functions["amaranth_soc." + fv.qualname] = f"proved ({fv.paths} paths, {len(fv.obs)} obligations)"
+            run.require(f"{fv.qualname}::accepts-only-a-map-with-the-bus-geometry")
+            obs += fv.obs
+    except Unsupported as e:
+        run.bounded_notes.append(f"memory_map setters: outside the pyvc subset on this tree ({e}); the bounded validation clause decides")
     run.assumptions += BASE_ASSUMPTIONS_L1 + ["parameters are canonical values (enum members, frozensets, cast shapes) whose Python equality is "
                                               "the equality of the integers standing for them; Shape.cast is uninterpreted"]
     discharge_all(run, obs, timeout_ms=10000)
